@@ -83,13 +83,14 @@ func compositions(n, k int) [][]int {
 }
 
 type c14Ex struct {
-	Method  string    `json:"method"`
-	ReqLen  int       `json:"req_len"`
-	Chunked bool      `json:"chunked"`
-	Script  vh.Script `json:"script"`
-	Writes  []int     `json:"writes"`
-	Upgrade bool      `json:"upgrade,omitempty"`
-	Label   string    `json:"label"`
+	Method  string      `json:"method"`
+	ReqLen  int         `json:"req_len"`
+	Chunked bool        `json:"chunked"`
+	Script  vh.Script   `json:"script"`
+	Writes  []int       `json:"writes"`
+	Upgrade bool        `json:"upgrade,omitempty"`
+	ReqHdr  [][2]string `json:"request_headers,omitempty"`
+	Label   string      `json:"label"`
 }
 
 func c14Exchanges(e *vh.Env, c c14Case) []c14Ex {
@@ -116,6 +117,15 @@ func c14Exchanges(e *vh.Env, c c14Case) []c14Ex {
 		for _, ch := range []bool{false, true} {
 			mk(fmt.Sprintf("upload %d chunked=%v", n, ch), "POST", n, ch, 200, []int{5}, -1, false, nil)
 			mk(fmt.Sprintf("upload %d chunked=%v PUT 201", n, ch), "PUT", n, ch, 201, nil, -1, false, nil)
+		}
+	}
+	// uploads by a client that also offers a protocol upgrade (which the backend does not take up): bounded like any other
+	for _, conn := range []string{"Upgrade", "keep-alive, Upgrade"} {
+		for _, n := range []int{L1, L1 + 1, 10 * L1} {
+			for _, ch := range []bool{false, true} {
+				mk(fmt.Sprintf("upload %d chunked=%v with Connection: %s", n, ch, conn), "POST", n, ch, 200, []int{4}, -1, false, nil)
+				xs[len(xs)-1].ReqHdr = [][2]string{{"Connection", conn}, {"Upgrade", "websocket"}}
+			}
 		}
 	}
 	for _, m := range []string{"GET", "DELETE", "OPTIONS", "PATCH"} {
@@ -267,6 +277,7 @@ func init() {
 					if x.Upgrade {
 						rq.Headers = append(rq.Headers, [2]string{"Connection", "Upgrade"}, [2]string{"Upgrade", "websocket"})
 					}
+					rq.Headers = append(rq.Headers, x.ReqHdr...)
 					return rq
 				}
 				find := func(xid string) *vh.Arrival {
